@@ -112,6 +112,18 @@ def _section(c, sec):
         bk["border_left"] = [[["single", ""][(r + j) % 2] for j in range(w)] for r in range(hh)]
     else:
         bk["text_format"] = "b"
+    full = c.get("vocab") == "full"
+    VJ = ["top", "center", "bottom", "merge_first", "merge_rest", ""]
+    BS = ["single", "double", "thick", "dotted", "dashed", "small-dash", "dash-dotted", "dash-dot-dotted", "triple", "wavy", "double-wavy",
+          "striped", "embossed", "engraved", "frame", ""]
+    TJ = ["l", "c", "r", "d", "j"]
+    if full and n > 0:
+        # every legal keyword of the enumerated cell options occurs somewhere in the table (cycled over the cells)
+        bk["cell_vertical_justification"] = [[VJ[(r * ncols + j) % len(VJ)] for j in range(ncols)] for r in range(n)]
+        bk["border_right"] = [[BS[(r * ncols + j) % len(BS)] for j in range(ncols)] for r in range(n)]
+        if "text_justification" not in bk:
+            bk["text_justification"] = [[TJ[(r + 2 * j) % len(TJ)] for j in range(ncols)] for r in range(n)]
+        bk["cell_justification"] = [["l", "c", "r"][sec % 3]]
     if c["size"] == "half":
         bk["text_font_size"] = 10.5
     if c["colour"]:
@@ -121,6 +133,9 @@ def _section(c, sec):
     body = rtf.RTFBody(**bk)
     displayed = [k for k in data if not (k == "SB" or (k == "PB" and strat in ("pageby", "pageby_np_first", "subpb")))]
     hk = {"text_font_size": 10.5} if c["size"] == "half" else {}
+    if full:
+        hk["cell_vertical_justification"] = [[VJ[(j + 3) % len(VJ)] for j in range(max(1, len(displayed)))]]
+        hk["border_left"] = [[BS[(j + 5) % len(BS)] for j in range(max(1, len(displayed)))]]
     if c["hdr"] == "explicit":
         hdr = [rtf.RTFColumnHeader(text=["H%d" % j for j in range(len(displayed))], **hk)]
     elif c["hdr"] == "multi":
@@ -160,9 +175,16 @@ def build(c, tmp):
         figs = [colordocs.tiny_png(os.path.join(tmp, "f%d.png" % i), w=2 + i, h=3) for i in range(max(1, min(c["n"], 4)))]
         return rtf.RTFDocument(rtf_figure=rtf.RTFFigure(figures=figs, fig_width=[2.0, 3.3], fig_height=1.5), **kw)
     if c["foot"] != "none":
-        kw["rtf_footnote"] = rtf.RTFFootnote(text=["Foot 1", "Foot 2 x_1"], as_table=(c["foot"] == "table"), **sz)
+        fz = dict(sz)
+        if full and c["foot"] == "table":
+            fz["cell_vertical_justification"] = VJ[(n + m) % len(VJ)]
+            fz["border_right"] = BS[(n + 3 * m) % len(BS)]
+        kw["rtf_footnote"] = rtf.RTFFootnote(text=["Foot 1", "Foot 2 x_1"], as_table=(c["foot"] == "table"), **fz)
     if c["src"] != "none":
-        kw["rtf_source"] = rtf.RTFSource(text="Source", as_table=(c["src"] == "table"), **sz)
+        sz2 = dict(sz)
+        if full and c["src"] == "table":
+            sz2["cell_vertical_justification"] = VJ[(n + m + 4) % len(VJ)]
+        kw["rtf_source"] = rtf.RTFSource(text="Source", as_table=(c["src"] == "table"), **sz2)
     if c["path"] == "single":
         df, body, hdr = _section(c, 1)
         if hdr is not None:
